@@ -116,7 +116,7 @@ def run(ck, facts):
                         ok_alt = ok_alt or any(y in plus1 for y in C.walk(x["e"]))
                 ck.expect(ok_alt, "R3", "Enum::new/implicit-is-the-None-case", "", "`counter + 1` is not the alternative taken when the variant has no explicit discriminant", C.loc(f))
                 # explicit literal parsed as a whole expression (negatives)
-                parses = [C.callee(x) or "" for x in C.calls_in(val_init)]
+                parses = C.callees_transitive(core, val_init)
                 ck.expect(any(p.endswith("base10_parse") for p in parses) and any("parse2" in p or p.endswith("syn::parse") for p in parses), "R3", "Enum::new/explicit-literal", "syn::parse2 + base10_parse", "explicit discriminants are no longer parsed as a signed literal (calls: %s)" % [p.split("::")[-1] for p in parses], C.loc(f))
                 # counter := value, unconditionally, top level of the closure
                 assigns = [st for st in stmts if C.strip_keep_macro(st).get("k") == "assign" or (st.get("k") == "semi" and C.strip_keep_macro(st["e"]).get("k") == "assign")]
